@@ -8,7 +8,8 @@
 (*        exc (exception type that escaped the reporter / run, "" if none)     *)
 (* Violated clause:  <<"VERDICT", id, "C16.wellformed", family, ctx, mask>>    *)
 (* (ctx = the context the specification blames, mask = the offending character *)
-(* classes as bits over ClsOrder; kept short: TLC wraps long lines).           *)
+(* classes as bits over ClsOrder -- for attr_ctrl the first one in the text;   *)
+(* kept short: TLC wraps long lines).                                          *)
 (* Information: <<"INFO", id, "diverges", predicted>>.  The final line         *)
 (* <<"DONE", rows, diameter, verdicts>> lets the driver check that no line got *)
 (* lost.                                                                       *)
@@ -26,6 +27,7 @@ RECURSIVE MaskFrom(_,_)
 MaskFrom(S, j) == IF j > Len(ClsOrder) THEN 0 ELSE (IF ClsOrder[j] \in S THEN Pow2(j - 1) ELSE 0) + MaskFrom(S, j + 1)
 Mask(S) == MaskFrom(S, 1)
 
+FirstIn(t, S) == t[CHOOSE j \in DOMAIN t : t[j] \in S /\ \A h \in 1..(j - 1) : t[h] \notin S]
 KnownRow(r) == r.src \in Sources /\ \A j \in DOMAIN r.s : r.s[j] \in Classes
 BadCtxs(r) == {c \in CtxOf(r.src) : ~SourceWellFormed(r.src, c, r.s)}
 Predicted(r) == BadCtxs(r) = {}
@@ -39,7 +41,7 @@ Verdict(r) ==
    ELSE IF r.exc # "" THEN {<<"reporter_raised", "none", {}>>}
    ELSE IF ~r.written THEN {<<"no_report", "none", {}>>}
    ELSE IF "attr" \in BadCtxs(r) /\ KF_C16_attr_ctrl("attr", TextIn(r.src, "attr", r.s))
-        THEN {<<"attr_ctrl", "attr", Range(TextIn(r.src, "attr", r.s)) \cap NotXmlChar>>}
+        THEN {<<"attr_ctrl", "attr", {FirstIn(TextIn(r.src, "attr", r.s), NotXmlChar)}>>}   \* the first offending class
    ELSE IF BadCtxs(r) # {} THEN LET c == CHOOSE c \in BadCtxs(r) : TRUE IN {<<"predicted", c, Offending(r, c)>>}
    ELSE {<<"unpredicted", "none", {}>>}
 Infos(r) == IF KnownRow(r) /\ Predicted(r) # (r.wellformed /\ r.exc = "") THEN {<<"diverges", Predicted(r)>>} ELSE {}
